@@ -26,11 +26,30 @@ class Kill(BaseException):
     pass
 
 
+class Sem:
+    """binary hand-off signal on a raw lock (much cheaper than threading.Semaphore, which is built on a Condition);
+    every use here is a strict alternation of one release and one acquire"""
+    def __init__(self):
+        self.l = threading.Lock()
+        self.l.acquire()
+
+    def release(self):
+        try:
+            self.l.release()
+        except RuntimeError:
+            pass                     # already signalled (only happens while threads unwind at shutdown)
+
+    def acquire(self, timeout=None):
+        if timeout is None:
+            return self.l.acquire()
+        return self.l.acquire(timeout=timeout)
+
+
 class T:
     def __init__(self, idx):
         self.idx = idx
-        self.go = threading.Semaphore(0)
-        self.first = threading.Semaphore(0)
+        self.go = Sem()
+        self.first = Sem()
         self.started = False
         self.pending = None
         self.done = False
@@ -44,7 +63,7 @@ class Ctl:
     def __init__(self):
         self.threads = []
         self._local = threading.local()
-        self._back = threading.Semaphore(0)
+        self._back = Sem()
         self.clock = 0
         self.choice = 0
         self.kill = False
@@ -293,8 +312,18 @@ class ISet(set):
         return list(self._order)
 
 
+_LOG_LINES = {}
+
+
 def log_lines(path):
-    """line numbers covered by statements of the form log.<level>(...)"""
+    """line numbers covered by statements of the form log.<level>(...) (cached per file version)"""
+    key = path
+    if key not in _LOG_LINES:
+        _LOG_LINES[key] = _log_lines(path)
+    return _LOG_LINES[key]
+
+
+def _log_lines(path):
     with open(path, encoding="utf-8") as f:
         mod = ast.parse(f.read())
     lines = set()
